@@ -29,7 +29,7 @@ IMPORTS = "From Coq Require Import List Arith Bool QArith. From PTN Require Impo
 PRIMES = [{"1": 1, "g1": 2, "g2": 3, "g3": 5, "g4": 7}, {"1": 1, "g1": 11, "g2": 13, "g3": 17, "g4": 19},
           {"1": 1, "g1": 101, "g2": 211, "g3": 307, "g4": 401}]
 SV_TOL = 1e-9
-HUB_TIE_MAX = 60     # quick tier: many-term cases with more terms than this are oracle-only
+HUB_TIE_MAX = 40     # quick tier: many-term cases with more terms than this are oracle-only
 DET_MAX = 7          # largest minor whose determinant is recomputed in Coq (Laplace expansion)
 
 
@@ -350,7 +350,7 @@ class C12(Prop):
             "itself is needed; 'hub' = 6..160 distinct terms with up to 6 labels per site on stars/spiders/random trees with a node of >= 3 "
             "neighbours, branching nodes mostly without operator (dimension 1 or untouched), unit or rational coefficients, first "
             "construction (80%) or after a history: diagrams with hundreds of vertices. All other cases share the process of the check run "
-            "(a long history of SGE constructions). Quick tier: hub cases with more than 60 terms are judged by the oracle only (no tie)")
+            "(a long history of SGE constructions). Quick tier: hub cases with more than 40 terms are judged by the oracle only (no tie)")
     clauses = [
         ("F", "min_cert_sound: an accepted certificate (row/column indices of an r x r minor of Gamma and its inverse) excludes every factorisation "
               "Gamma = X*Y through an inner dimension k < r, for all matrices and all X, Y (C12_min_cert_sound; core lemma C12_kernel_vector: k equations "
